@@ -10,3 +10,4 @@ def check(A):
     for fl in FLAVOURS:
         R.admission_rules(A, fl, 'C13', parts=('defs', 'origin'))
     R.cors_rules(A, 'C13')
+    R.asgi_env_rules(A, 'C13')
